@@ -631,9 +631,12 @@ func genPolicy(r *vgen.Rand, depth int) polGen {
 	}
 	var sq *pathpol.Sequence
 	sqT := "None"
-	if r.Chance(1, 2) {
+	if r.Chance(1, 2) || depth > 0 {
 		txt := ""
-		if r.Chance(5, 6) {
+		if depth > 0 && r.Chance(2, 3) { // selective sub-policies, so that options differ
+			txt = vgen.Pick(r, "0* 1-1 0*", "0* 2 0*", "0 0", "0 0 0", "0* 0-ff00:0:110#1 0*", "1 0*", "0* 2-0",
+				"0* 0-0#2 0*", "0 0-FF00:0:110 0*", "(1 | 2-1) 0+", "0* 1-0:0:1#0,2 0*", "0 0 0 0?")
+		} else if r.Chance(5, 6) {
 			b := r.Range(1, 4)
 			txt = genLevel(r, &b, 0, true).text(r)
 		}
@@ -647,11 +650,11 @@ func genPolicy(r *vgen.Rand, depth int) polGen {
 	}
 	var opts []pathpol.Option
 	var subs []polGen
-	if depth < 2 && r.Chance(1, 2) {
-		for k := r.Range(1, 3); k > 0; k-- {
+	if depth < 2 && r.Chance(2, 3) {
+		for k := r.Range(1, 4); k > 0; k-- {
 			sub := genPolicy(r, depth+1+r.Intn(2))
 			subs = append(subs, sub)
-			opts = append(opts, pathpol.Option{Weight: r.Intn(3), Policy: &pathpol.ExtPolicy{Policy: sub.pol}})
+			opts = append(opts, pathpol.Option{Weight: vgen.Pick(r, 1, 1, 2, 2, 0), Policy: &pathpol.ExtPolicy{Policy: sub.pol}})
 		}
 	}
 	p := pathpol.NewPolicy("p", acl, sq, opts)
@@ -708,7 +711,7 @@ func main() {
 	run.CheckFn = "check"
 	run.DiagFn = "diag"
 	run.CaseType = "case"
-	run.ShardSize = 120
+	run.ShardSize = 100
 	run.Rule = "sequence cases: expressions of 1-5 hop predicates over ISDs {0,1,2}, ASes {0, 1, 0:0:1, ff00:0:110 in " +
 		"lower/upper/mixed case, a few invalid or unusual spellings}, interfaces {0,1,2}, with ? + * |, juxtaposition " +
 		"and parentheses (mixed '|'/juxtaposition levels tagged or-precedence), plus mutated text; 6-9 paths each, " +
@@ -729,7 +732,7 @@ func main() {
 	}
 
 	// 1. sequences
-	ns := run.Count(700, 60000)
+	ns := run.Count(450, 60000)
 	fixed := []string{"", " ", "0", "0*", "0+", "0?", "1-1 1-2 | 1-3", "(1-1 1-2) | 1-3", "1-1 (1-2 | 1-3)", "1-1|1-2 1-3",
 		"1-FF00:0:110 0", "1-0:0:1 0", "1 -1 0", "1-00", "1-0:0:01 0", "1#0", "0-0-0#0", "0#0#0", "1-0", "()", "(0", "0)",
 		"0 | | 0", "| 0", "0 |", "0 ? ?", "0**", "1-1#1,", "1-1#", "1-1#1,2,3", "1-4294967296 0", "1-fffff:0:0 0",
@@ -804,7 +807,7 @@ func main() {
 	}
 
 	// 2. hop predicates
-	nh := run.Count(150, 5000)
+	nh := run.Count(100, 5000)
 	for i := 0; i < len(hpTexts)+len(hpBad)+nh; i++ {
 		r := rng.Fork(uint64(3000000 + i))
 		var s string
@@ -838,7 +841,7 @@ func main() {
 	}
 
 	// 3. ACLs
-	na := run.Count(200, 10000)
+	na := run.Count(130, 10000)
 	for i := 0; i < na; i++ {
 		r := rng.Fork(uint64(6000000 + i))
 		mode := vgen.Pick(r, 0, 0, 0, 0, 0, 1, 2) // 0 well-formed, 1 malformed via NewACL, 2 unvalidated literal
@@ -874,7 +877,7 @@ func main() {
 	}
 
 	// 4. policies
-	np := run.Count(200, 10000)
+	np := run.Count(130, 10000)
 	for i := 0; i < np; i++ {
 		r := rng.Fork(uint64(9000000 + i))
 		g := genPolicy(r, 0)
